@@ -18,6 +18,7 @@ INSTANTS = [  # rank = index + 1, canonical RFC3339Nano spelling (UTC), strictly
     "2020-06-01T12:30:00.5Z",
     "2021-11-11T11:11:11Z",
     "2021-11-11T11:11:11.000000011Z",
+    "2525-05-05T05:05:05Z",   # rank 7: beyond the range of int64 UnixNano (1678..2262), where UnixNano() wraps
 ]
 # other spellings of the same instants (other zones) used in query texts and for some stored anchors
 ALT_SPELLINGS = {2: "2020-01-01T02:00:00+02:00", 4: "2020-06-01T05:30:00.5-07:00"}
@@ -158,7 +159,11 @@ TRIPLES = [  # (s, p, o)
                              #    s@[i3] (27) sorts between the two spellings
     (4, 1, FE(3)),           # 40 /u<c> p@[] 1.7881393432617188e-07 (3 * 2^-24)
     (4, 1, FE(5)),           # 41 /u<c> p@[] 2.980232238769531e-07  (5 * 2^-24): both print as 0.000000 with 6 decimals
+    (1, ("s", 7), I(4)),     # 42 /u<a> s@[i7] 4: anchored in 2525, outside the UnixNano range
+    (2, ("p", 7), N(1)),     # 43 /u<b> p@[i7] /u<a>
 ]
+TRIPLES = [(t[0], pred_index(*t[1]) if isinstance(t[1], tuple) else t[1]) + tuple(t[2:]) for t in TRIPLES]
+
 # predicates some triple stores in a second spelling: their printed form (hence their ORDER BY rank) is not a
 # function of the value; key columns holding them are not judged (pr = 0)
 AMBIGUOUS_PREDS = {t[1] for t in TRIPLES if len(t) > 3}
